@@ -193,7 +193,7 @@ func TestVerif_C03(t *testing.T) {
 			ev.Cap("time budget")
 			return
 		}
-		seqx.Explore(seqx.Options{MaxDev: maxDev}, func(ch *seqx.Chooser) {
+		_, complete := seqx.Explore(seqx.Options{MaxDev: maxDev, Stop: ev.OverBudget}, func(ch *seqx.Chooser) {
 			k, w, res := c03Run(t, c, ch)
 			if rechecked < 48 {
 				// determinism: the same schedule must produce the same observation trace
@@ -227,6 +227,10 @@ func TestVerif_C03(t *testing.T) {
 				ev.Sample("execution", map[string]interface{}{"stream": cc.Names, "config": c.Cfg, "schedule": res.Steps, "target_received": syncShowCmds(res.Received)})
 			}
 		})
+		if !complete {
+			capped = true
+			ev.Cap("time budget")
+		}
 	}
 	// every configuration x every stream up to lenSched-1.. under the default schedule
 	for _, cfg := range full {
